@@ -19,7 +19,6 @@ import (
 	"fmt"
 	"math"
 	"math/big"
-	"math/rand"
 	"reflect"
 	"runtime"
 	"sort"
@@ -327,9 +326,7 @@ func mergeRoots(
 	// progress merging what we can. In order to not be persistently blocked by a
 	// lowest-named root, we randomize the order.
 	roots = append([]string{}, roots...)
-	rand.Shuffle(len(roots), func(i, j int) {
-		roots[i], roots[j] = roots[j], roots[i]
-	})
+	verifShuffle(roots)
 
 	mergedRoots := make(map[string][]byte, len(roots))
 	var tree *crdt.Tree
@@ -574,7 +571,7 @@ func getFirstKey(m map[string][]byte) *string {
 type rootGraph map[string]*crdt.Root
 
 func getFirst(m map[string]struct{}) (string, bool) {
-	for k := range m {
+	for _, k := range verifKeys(m) {
 		return k, true
 	}
 	return "", false
@@ -629,7 +626,8 @@ func getDependents(mergedRoots rootGraph) dependentRoots {
 }
 
 func (s *DB) moveMergedRoots(ctx context.Context, newRoot string, mergedRoots map[string][]byte) {
-	for key, mergedRoot := range mergedRoots {
+	for _, key := range verifKeys(mergedRoots) {
+		mergedRoot := mergedRoots[key]
 		if newRoot == key {
 			continue
 		}
@@ -660,7 +658,8 @@ func (s *DB) getHistoricRootsAndNodes(
 	}
 	candidateRoots := dependentRoots{}
 	parentToChildren := getDependents(rootCacheByName)
-	for parent, children := range parentToChildren {
+	for _, parent := range verifKeys(parentToChildren) {
+		children := parentToChildren[parent]
 		tooNew := false
 		for _, childRoot := range children {
 			if childRoot.Created == nil || childRoot.Created.After(olderThan) {
@@ -673,7 +672,8 @@ func (s *DB) getHistoricRootsAndNodes(
 		}
 	}
 	candidateBlocks := make(map[string]int) // track root that can be deleted too
-	for parentName, children := range candidateRoots {
+	for _, parentName := range verifKeys(candidateRoots) {
+		children := candidateRoots[parentName]
 		parentRoot, ok := rootCacheByName[parentName]
 		if !ok {
 			continue
@@ -685,7 +685,8 @@ func (s *DB) getHistoricRootsAndNodes(
 			}
 			continue
 		}
-		for childName, childRoot := range children {
+		for _, childName := range verifKeys(children) {
+			childRoot := children[childName]
 			child, err := crdt.Load(ctx, s.crdt.Config, &childName, *childRoot)
 			if err != nil {
 				if logFunc != nil {
@@ -710,11 +711,11 @@ func (s *DB) getHistoricRootsAndNodes(
 		}
 	}
 	nodes = make([]string, 0, len(candidateBlocks))
-	for k := range candidateBlocks {
+	for _, k := range verifKeys(candidateBlocks) {
 		nodes = append(nodes, k)
 	}
 	roots = make([]string, 0, len(candidateRoots))
-	for k := range candidateRoots {
+	for _, k := range verifKeys(candidateRoots) {
 		roots = append(roots, k)
 	}
 	return roots, nodes, nil
